@@ -120,6 +120,11 @@ func marshalObjectAny(enc *jsontext.Encoder, obj map[string]any, mo *jsonopts.St
 		if mo.Flags.Get(jsonflags.FormatNilMapAsNull) && obj == nil {
 			return enc.WriteToken(jsontext.Null)
 		}
+		// The fast path below does not consult the state machine, so handle
+		// being at the maximum nesting depth here by letting WriteToken report it.
+		if xe.Tokens.AtMaxDepth() {
+			return enc.WriteToken(jsontext.BeginObject)
+		}
 		// Optimize for marshaling an empty map without any preceding whitespace.
 		if !mo.Flags.Get(jsonflags.AnyWhitespace) && !xe.Tokens.Last.NeedObjectName() {
 			xe.Buf = append(xe.Tokens.MayAppendDelim(xe.Buf, '{'), "{}"...)
@@ -235,6 +240,11 @@ func marshalArrayAny(enc *jsontext.Encoder, arr []any, mo *jsonopts.Struct) erro
 	if len(arr) == 0 {
 		if mo.Flags.Get(jsonflags.FormatNilSliceAsNull) && arr == nil {
 			return enc.WriteToken(jsontext.Null)
+		}
+		// The fast path below does not consult the state machine, so handle
+		// being at the maximum nesting depth here by letting WriteToken report it.
+		if xe.Tokens.AtMaxDepth() {
+			return enc.WriteToken(jsontext.BeginArray)
 		}
 		// Optimize for marshaling an empty slice without any preceding whitespace.
 		if !mo.Flags.Get(jsonflags.AnyWhitespace) && !xe.Tokens.Last.NeedObjectName() {
